@@ -181,3 +181,52 @@ Proof. intros n H. split.
   - unfold g_generate_state_pure_state_vector_from_name. rewrite C17gen_state_validator_closed, H. reflexivity.
   - unfold g_generate_state_density_mat_from_name. rewrite C17gen_state_validator_closed, H. reflexivity. Qed.
 Print Assumptions C17gen_state_generators_closed.
+
+(* ================= the DISPATCH of the POVM generators (generate_povm_pure_state_vectors_from_name, _generate_povm_pure_state_vectors_from_single_name,
+   _generate_povm_matrices_from_single_name; the state vector functions, calc_mat_from_vector_adjoint and the parity matrix functions are ORACLE atoms).
+   POVM names are compositional, so closure is at the FACTOR level: a single name outside the two validity lists raises, for EVERY string. *)
+Lemma gen_povm_validity_lists :
+  g_get_povm_names_rank1 = POk (VList (map VStr povm_rank1_names)) /\ g_get_povm_names_not_rank1 = POk (VList (map VStr povm_not_rank1_names)).
+Proof. split; vm_compute; reflexivity. Qed.
+Definition is_kronvec_list (r : pres pyv) (atoms : list (list string)) : bool :=
+  match r with
+  | POk (VList l) => Nat.eqb (List.length l) (List.length atoms) && forallb (fun p => is_kronvec (POk (fst p)) (snd p)) (combine l atoms)
+  | _ => false end.
+Definition is_adjoint_list (r : pres pyv) (atoms : list (list string)) : bool :=
+  match r with
+  | POk (VList l) => Nat.eqb (List.length l) (List.length atoms) && forallb (fun p => is_app1_kronvec (POk (fst p)) "calc_mat_from_vector_adjoint" (snd p)) (combine l atoms)
+  | _ => false end.
+Definition all_rank1 (ks : list nat) : bool := forallb povm1_rank1 ks.
+
+(* every catalogued POVM name: rank-1 names yield, outcome by outcome in product order, the vector functions of the states of the POVM table;
+   names with a factor that is not rank 1 raise in the pure_state_vectors form; single rank-1 names yield the adjoint of those vectors as matrices *)
+Theorem C17gen_povm_dispatch_catalogue :
+  forall sys, (sys < 5)%nat -> forall e, In e (cat_povms sys) ->
+    (if all_rank1 (snd e) then is_kronvec_list (g_generate_povm_pure_state_vectors_from_name (VStr (fst e))) (povm_atoms (snd e))
+     else is_err (g_generate_povm_pure_state_vectors_from_name (VStr (fst e)))) = true /\
+    (match snd e with
+     | [k] => if povm1_rank1 k then is_adjoint_list (g__generate_povm_matrices_from_single_name (VStr (fst e))) (povm_atoms [k])
+              else negb (is_err (g__generate_povm_matrices_from_single_name (VStr (fst e))))
+     | _ => true end) = true.
+Proof. intros sys Hs e He.
+  assert (A : forallb (fun sys => forallb (fun e : string * list nat =>
+      (if all_rank1 (snd e) then is_kronvec_list (g_generate_povm_pure_state_vectors_from_name (VStr (fst e))) (povm_atoms (snd e))
+       else is_err (g_generate_povm_pure_state_vectors_from_name (VStr (fst e)))) &&
+      (match snd e with
+       | [k] => if povm1_rank1 k then is_adjoint_list (g__generate_povm_matrices_from_single_name (VStr (fst e))) (povm_atoms [k])
+                else negb (is_err (g__generate_povm_matrices_from_single_name (VStr (fst e))))
+       | _ => true end)) (cat_povms sys)) (seq 0 5) = true) by (vm_cast_no_check (@eq_refl bool true)).
+  rewrite forallb_forall in A. specialize (A sys ltac:(apply in_seq; lia)). rewrite forallb_forall in A. specialize (A e He). now apply andb_true_iff in A. Qed.
+Print Assumptions C17gen_povm_dispatch_catalogue.
+
+Theorem C17gen_povm_factors_closed :
+  forall p : string,
+    (existsb (String.eqb p) povm_rank1_names = false -> g__generate_povm_pure_state_vectors_from_single_name (VStr p) = PErr "ValueError") /\
+    (existsb (String.eqb p) (povm_rank1_names ++ povm_not_rank1_names) = false -> g__generate_povm_matrices_from_single_name (VStr p) = PErr "ValueError").
+Proof. intros p. destruct gen_povm_validity_lists as [L1 L2]. split.
+  - intros H. unfold g__generate_povm_pure_state_vectors_from_single_name. rewrite L1. cbn [pbind]. rewrite py_in_strs, H. reflexivity.
+  - intros H. rewrite existsb_app in H. apply orb_false_iff in H. destruct H as [H1 H2].
+    assert (Hz : String.eqb p "z2" = false) by (cbn [existsb povm_not_rank1_names] in H2; apply orb_false_iff in H2; tauto).
+    unfold g__generate_povm_matrices_from_single_name. rewrite L1. cbn [pbind]. rewrite py_in_strs, H1. cbn [pbind py_truth py_eq py_eqb]. rewrite Hz.
+    cbn [pbind py_truth]. rewrite L2. cbn [pbind]. rewrite py_in_strs, H2. reflexivity. Qed.
+Print Assumptions C17gen_povm_factors_closed.
